@@ -1,9 +1,10 @@
 INIT Init
-NEXT Next
+NEXT SimNext
 CONSTANTS
   Cap = 1
   L = 2
   Periodic = TRUE
   Warms = {0}
+  Sim = TRUE
 INVARIANT LeafInv
 CHECK_DEADLOCK FALSE
